@@ -212,6 +212,32 @@ def sim_cases(tier):
                                                     "assign": asg},
                                          delay={"mode": "table",
                                                 "table": table})))
+    # parallel branches of unequal length: a task listed later in the plan is
+    # delayed and completes while an earlier-listed one is still unscheduled
+    # behind a long predecessor
+    for label, wa in (
+            ("chains22-long-first", dag("chains22", [5, 1, 1, 1])),
+            ("chains22-long-last", dag("chains22", [1, 1, 5, 1])),
+            ("chains22-ids", dag("chains22", [5, 1, 1, 2],
+                                 ids=[3, 1, 2, 0])),
+            ("chain2+1", dag("chain2+1", [5, 1, 1])),
+            ("chain2+1-ids", dag("chain2+1", [5, 1, 1], ids=[1, 2, 0]))):
+        n = len(wa["nodes"])
+        for machines in (CLUSTERS[2][0], CLUSTERS[3][0]):
+            M = len(machines)
+            obs = [mkobs("a", 0, 1, 1, 1, 1, "wa")]
+            cfg = mkcfg(machines, obs, (100, 10), (100, 10), 2, 2)
+            case = mkcase(cfg, {"wa": wa})
+            rr = {"a": {str(x[0]): i % M for i, x in enumerate(wa["nodes"])}}
+            for alg in algs + [{"kind": "dynamic", "assign": rr},
+                               {"kind": "greedy", "assign": rr}]:
+                for vec in itertools.product((0, 1, 3), repeat=n):
+                    table = {"a:%d" % x[0]: d
+                             for x, d in zip(wa["nodes"], vec) if d}
+                    out.append(("S-delayvec/parallel-branches/%s" % label,
+                                dict(case, alg=alg,
+                                     delay={"mode": "table",
+                                            "table": table})))
     # two workflows: delayed task of the first finishes while the second runs
     wa = dag("chain2", [1, 1], [0])
     for s2 in (1, 2):
